@@ -396,6 +396,11 @@ def classify(c, dirs):
         for a in v['ann']:
             if a[0] == 'array' and array_length_name(a) is not None:
                 targets.add(target_index(c, array_length_name(a)))
+    destroy_targets = set()
+    for vid, v in values_of(c):
+        for a in v['ann']:
+            if a[0] == 'destroy' and len(a) == 2:
+                destroy_targets.add(target_index(c, a[1]))
     for vid, v in values_of(c):
         anns = v['ann']
         for k, a in enumerate(anns):
@@ -405,6 +410,11 @@ def classify(c, dirs):
             if vid != 'ret' and vid in targets and (a[0] == 'transfer' or any(
                     b[0] == 'array' and array_length_name(b) == v['name'] for b in anns)):
                 # a length parameter's ownership is not a documented notion; an array that is its own length is nonsense
+                verdict, expect, prov, row = AR.UNDECIDED, [], '', -1
+            elif a[0] == 'scope' and vid != 'ret' and vid in destroy_targets:
+                # another parameter names this one as its destroy notifier; the scanner then marks it 'notified' on
+                # purpose (maintransformer: "technically bogus ... handled in the final transformation pass"), so two
+                # annotations compete for the attribute and the documentation does not say which wins
                 verdict, expect, prov, row = AR.UNDECIDED, [], '', -1
             elif vid == rem:
                 # the trailing GError** disappears from the parameter list: nothing is promised about its annotations,
